@@ -1,7 +1,7 @@
 //! C12 harness: the REAL Init<..> validation with Create(..) / CreateIfNeeded(..) arguments, run natively against
 //! the system-program simulator (rent_sim.rs) installed behind the CPI hook, Rent injected through the sysvar hook.
 //!
-//! case   : kind mode seeded argform fkind cache lpby mult  FUNDER TARGET  tseeds tbump fseeds  findt findf  pda-table  ival
+//! case   : kind mode seeded argform fkind cache (0 empty, 1 the funder, 2 ANOTHER account) lpby mult  FUNDER TARGET  tseeds tbump fseeds  findt findf  pda-table  ival
 //!          (ACC = key[32] owner[32] lamports signer writable dlen data..; seeds = n (len bytes..)*;
 //!           find = key[32] bump; pda-table = n (seeds res key[32])*; ival = n bytes..)
 //!          the find / pda-table entries are the model's oracle and are ignored here (the real functions are used)
@@ -303,6 +303,15 @@ fn run(c: &[i128]) -> Option<Vec<i128>> {
             (_, Some(f), _) => ctx.set_funder(Box::new(f.clone())),
             (_, _, Some(f)) => ctx.set_funder(Box::new(f.clone())),
             _ => {}
+        }
+    }
+    // cache == 2: ANOTHER funder (rich, signing, writable) sits in the cache while the case hands its own funder over
+    // explicitly: the explicit one has to pay
+    let decoy = NativeAccount::new([0xC1; 32], [0; 32], u64::MAX / 4, &[], true, true, false);
+    let dinfo = decoy.info();
+    if cache == 2 {
+        if let Ok(d) = <Mut<Signer>>::try_from_account(&dinfo, &mut ctx) {
+            ctx.set_funder(Box::new(d));
         }
     }
     let sarg = match seeded {
